@@ -52,6 +52,8 @@ def plan(tier, seed):
     kinds = list(RP.PRODUCTIONS) + ["steps", "termination"]
     for k in kinds:
         ch.append({"key": f"single/{k}", "kind": "single", "blockkind": k, "cost": 400})
+    for k in kinds:
+        ch.append({"key": f"nearvalid/{k}", "kind": "nearvalid", "blockkind": k, "cost": 600})
     for k in RP.PRODUCTIONS:
         n = len(RP.PRODUCTIONS[k])
         parts = max(1, n * n // 150)
@@ -190,6 +192,45 @@ def chunk_single(chunk, acc):
 
         os.rmdir(_TMP.pop("dir"))
     acc.sample({"block_kind": kind, "sentence": RP.sentence_tokens(wrap(kind, mk(forms[0])))})
+
+
+def chunk_nearvalid(chunk, acc):
+    """Texts one token edit away from a valid sentence (a stray `;`, an unknown `set` statement, an unknown keyword):
+    the parser may reject them - but whatever it accepts must regenerate with every token, like any accepted text."""
+    from vmc import profile_env
+
+    cp = profile_env.install(True)
+    kind = chunk["blockkind"]
+    forms = [f for k, f in RP.all_forms() if k == kind]
+    for f in forms:
+        toks = RP.sentence_tokens(wrap(kind, mk(f)))
+        acc.states += 1
+        variants = []
+        for i in range(len(toks) + 1):
+            variants.append(toks[:i] + [";"] + toks[i:])
+            if i == 0 or toks[i - 1] in (";", "{", "}"):
+                variants.append(toks[:i] + ["set", "zz_unknown", '"v"', ";"] + toks[i:])
+                variants.append(toks[:i] + ["zz_unknown", '"v"', ";"] + toks[i:])
+                variants.append(toks[:i] + ["zz_unknown", ";"] + toks[i:])
+        for i, t in enumerate(toks):
+            if not t.startswith('"') and t not in (";", "{", "}"):
+                variants.append(toks[:i] + ["zz_unknown"] + toks[i + 1 :])
+        for v in variants:
+            src = RP.render(v, 1)
+            acc.transitions += 1
+            try:
+                p1 = cp.C2Profile.from_text(src)
+            except Exception:  # noqa  (rejected: nothing to regenerate)
+                acc.case(("near", tuple(v)), nontrivial=True, outcome="rejected")
+                continue
+            try:
+                got = RP.tokenize(p1.as_text())
+            except Exception as e:  # noqa
+                got = f"{type(e).__name__}: {str(e)[:100]}"
+            acc.case(("near", tuple(v)), nontrivial=True, outcome="accepted" if got == v else "accepted-lossy")
+            if got != v:
+                acc.fail("C10/near-valid/accepted-but-tokens-not-preserved", {"kind": "nearvalid", "tokens": v}, v, got)
+    acc.sample({"block_kind": kind, "edits": ["stray ;", "set zz_unknown \"v\";", "zz_unknown \"v\";", "zz_unknown;", "keyword -> zz_unknown"]})
 
 
 def chunk_pairs(chunk, acc):
@@ -374,6 +415,13 @@ def replay(case):
 
     cp = profile_env.install(False)
     toks = case["tokens"]
+    if case.get("kind") == "nearvalid":
+        try:
+            p1 = cp.C2Profile.from_text(RP.render(toks, 1))
+        except Exception:  # noqa
+            return {"ok": True, "expected": "rejected or regenerated exactly", "observed": "rejected"}
+        got = RP.tokenize(p1.as_text())
+        return {"ok": got == toks, "expected": toks, "observed": got}
     if case.get("kind") == "path":
         import os
         import tempfile
